@@ -47,6 +47,51 @@ def run(prog, rep):
     rep.rule('R19.2', 'save instantiations apply no mutating operation to the object being saved', floor=100)
     rep.rule('R19.3', 'no mutable data members in library records; const_cast only at the tabled save-path entry points', floor=2)
 
+    # ------------------------------------------------------------------ R19.4: hidden shared state inside the C library
+    rep.rule('R19.4', 'library code calls no C / C++ library function that keeps hidden static state (POSIX list of functions that need not be '
+                      'thread-safe: gmtime, localtime, asctime, ctime, strtok, rand, setlocale, strerror, tmpnam, ...); zero expected, a positive '
+                      'example in the witness must match', floor=1)
+    NON_REENTRANT = {
+        'gmtime': 'returns a pointer to one static struct tm', 'localtime': 'returns a pointer to one static struct tm (and reads TZ state)',
+        'asctime': 'static result buffer', 'ctime': 'static result buffer', 'strtok': 'static scan position', 'rand': 'hidden generator state',
+        'srand': 'hidden generator state', 'setlocale': 'changes the process-wide locale', 'strerror': 'may return a static buffer',
+        'tmpnam': 'static buffer when called with null', 'getlogin': 'static buffer', 'ttyname': 'static buffer', 'readdir': 'per-DIR static entry',
+        'drand48': 'hidden generator state', 'lrand48': 'hidden generator state', 'mrand48': 'hidden generator state', 'basename': 'may use a static buffer',
+        'dirname': 'may use a static buffer', 'getenv': None, 'putenv': 'modifies the process environment', 'setenv': 'modifies the process environment',
+        'mblen': 'hidden conversion state', 'mbtowc': 'hidden conversion state', 'wctomb': 'hidden conversion state', 'global': None,
+    }
+    n_pos = 0
+    for fn in sorted(prog.funcs.values(), key=lambda x: x.id):
+        if fn.body is None or not fn.sym.get('repo'):
+            continue
+        is_witness = 'witness' in fn.relfile or fn.relfile.startswith('/verif') or 'positive_example' in fn.id
+        if not is_witness and not pattern_in_lib(fn):
+            continue
+        for n in fn.walk():
+            if n['k'] not in ('CallExpr', 'CXXMemberCallExpr'):
+                continue
+            s0 = fn.callee(n)
+            if s0 is None or s0.get('repo'):
+                continue
+            q = s0['q']
+            base = q[5:] if q.startswith('std::') else q
+            why = None
+            if '::' not in base and base in NON_REENTRANT and NON_REENTRANT[base]:
+                why = NON_REENTRANT[base]
+            elif q == 'std::locale::global':
+                why = 'changes the process-wide C++ locale'
+            if why is None:
+                continue
+            if is_witness:
+                n_pos += 1
+                rep.ok('R19.4', 'positive example matched|%s' % base, sample={'call': q, 'at': fn.loc(n)})
+            else:
+                rep.touch(fn)
+                rep.finding('R19.4', '%s|calls %s' % (fn.pq if fn.cls else fn.name, base), fn.loc(n),
+                            '%s calls %s(): %s - two independent operations on different threads interfere through it' % (fn.pq if fn.cls else fn.name, q, why), func=fn.id)
+    if not n_pos:
+        raise AnalysisBroken('R19.4: the positive example (a gmtime call in the witness) was not matched')
+
     # ------------------------------------------------------------------ R19.1a: classify every static object
     mutable_globals = {}   # decl-id per TU -> name
     seen_names = set()
